@@ -30,8 +30,14 @@ MANIFEST = dict(
 BYTE_WRITERS = ("write_header_and_update_offset", "update_row_count", "Write")
 
 
+# rules that keep their verdict however the code is laid out (decided by term equality, effect analysis or dominance over
+# resolved calls); every other rule of this check is a template rule (vcheck.core.Check.obt)
+SEMANTIC = ('R03.1a', 'R03.1b', 'R03.1c', 'R03.2b', 'R03.2c', 'R03.2d', 'R03.3d', 'R03.4c', 'R03.5')
+
+
 def run(chk):
     repo = PyRepo()
+    chk.set_templates(repo, semantic=SEMANTIC)
     chk.explanation = (
         "C03 is decided by structural rules over the parsed Python (ast+CFG) and C++ (clang AST+CFG) sources: "
         "def-use of the append-mode fallback, dominance of the dtype-compatibility check over every byte-writing "
